@@ -11,7 +11,9 @@ for d in seeded/*/; do
   [ -f "$d/patch.diff" ] || continue
   case "$id" in *"$FILTER"*) ;; *) continue ;; esac
   prop=$(python3 -c "import json;print(json.load(open('$d/meta.json'))['breaks_property'])")
-  extra=$(python3 -c "import json;print(' '.join(json.load(open('$d/meta.json')).get('also_run',[])))" 2>/dev/null)
+  # the other checks listed in also_run are re-run only where the change does not touch the API of its own property
+  # (own_check_cannot_see) or when ALL=1 is set; their earlier results stay in meta.json otherwise
+  extra=$(python3 -c "import json,os;m=json.load(open('$d/meta.json'));print(' '.join(m.get('also_run',[])) if (m.get('own_check_cannot_see') or os.environ.get('ALL')) else '')" 2>/dev/null)
   out=$(tools/try_patch.sh "$PWD/$d/patch.diff" "$TIER" "$prop" $extra 2>&1)
   echo "== $id"; echo "$out" | cut -c1-200
   OUT_TEXT="$out" python3 - "$d" "$prop" "$TIER" <<'PY'
@@ -48,6 +50,8 @@ with open('seeded/RESULTS.md', 'w') as o:
     for r in rows:
         o.write('| ' + ' | '.join(r) + ' |\n')
     n = len(rows); c = sum(1 for r in rows if r[3] == 'yes')
-    o.write(f'\n{c} of {n} seeded changes are caught by the quick check of their own property.\n')
+    nat = [r[0] for r in rows if r[3] != 'yes' and r[5]]
+    lost = [r[0] for r in rows if r[3] != 'yes' and not r[5]]
+    o.write(f'\n{c} of {n} seeded changes are caught by the quick check of their own property. {len(nat)} more leave the API of the property they were written for untouched and are caught by the check of the property they do break ({", ".join(nat)}). Caught by no check: {", ".join(lost) if lost else "none"}.\n\n"also caught by" lists checks that were seen to report the change at some point (when it arrived or in a later re-run with ALL=1); only the own check is re-run every time.\n')
 print(open('seeded/RESULTS.md').read()[-300:])
 PY
